@@ -128,7 +128,9 @@ class Flow:
             return So, ex + body_ex + eo
         if isinstance(s, ast.Try):
             Sb, eb = self.block(s.body, S)
-            catch_all = any(h.type is None or (isinstance(h.type, ast.Name) and h.type.id in ("Exception", "BaseException"))
+            # Python semantics: only a bare `except:` / `except BaseException` sees every exception; `except Exception` lets
+            # KeyboardInterrupt / SystemExit / GeneratorExit (raised e.g. inside a user's field function) pass through
+            catch_all = any(h.type is None or (isinstance(h.type, ast.Name) and h.type.id == "BaseException")
                             for h in s.handlers)
             caught, passed = [], []
             for kind, St, node in eb:
